@@ -808,3 +808,66 @@ class Program:
                             c.setdefault(key, []).append((f, b, t))
             self._callers = c
         return self._callers
+
+
+# ---- appends to a String: the writers spell the same append as push_str / push / `+=` / write_str / write_char / write! / extend;
+# rules ask for "a write of X to buffer B", not for one spelling
+_STR_WRITE_KINDS = {
+    "alloc::string::String::push_str": "str",
+    "alloc::string::String::push": "char",
+    "<alloc::string::String as core::ops::arith::AddAssign<&str>>::add_assign": "str",
+    "<alloc::string::String as core::fmt::Write>::write_str": "str",
+    "<alloc::string::String as core::fmt::Write>::write_char": "char",
+}
+
+
+def string_write_kind(t):
+    fn = t.get("res") or t.get("fn") or ""
+    k = _STR_WRITE_KINDS.get(fn)
+    if k:
+        return k
+    a0 = str((t.get("argtys") or [""])[0])
+    if fn.endswith("fmt::Write::write_fmt") and "alloc::string::String" in a0:
+        return "fmt"
+    if fn.startswith("<alloc::string::String as core::iter::traits::collect::Extend<") and fn.endswith("::extend"):
+        return "iter"
+    return None
+
+
+def string_writes(g):
+    """(block, call, kind, destination, source) of every append to a String outside cleanup; kind is str / char / fmt / iter"""
+    for b, t in g.calls():
+        if g.is_cleanup(b) or len(t.get("args") or []) < 2:
+            continue
+        k = string_write_kind(t)
+        if k:
+            yield b, t, k, strip(g.desc_op(t["args"][0])), strip(g.desc_op(t["args"][1]))
+
+
+def const_text(d):
+    """text of a constant char / str descriptor (`'['`, 91 and "[" are the same write), else None"""
+    if not (isinstance(d, tuple) and len(d) >= 2 and d[0] == "const"):
+        return None
+    v = d[1]
+    if isinstance(v, bool):
+        return None
+    if isinstance(v, int):
+        return chr(v) if 0 <= v < 0x110000 else None
+    if isinstance(v, str) and len(v) >= 2 and v[0] == '"' and v[-1] == '"':
+        out, i, body = [], 0, v[1:-1]
+        while i < len(body):
+            c = body[i]
+            if c == "\\" and i + 1 < len(body):
+                n = body[i + 1]
+                if n == "u" and body[i + 2:i + 3] == "{":
+                    j = body.index("}", i)
+                    out.append(chr(int(body[i + 3:j], 16)))
+                    i = j + 1
+                    continue
+                out.append({"n": "\n", "t": "\t", "r": "\r", "0": "\0"}.get(n, n))
+                i += 2
+                continue
+            out.append(c)
+            i += 1
+        return "".join(out)
+    return None
